@@ -136,7 +136,7 @@ func (x *Exec) atReturn(fr *Frame, st *State, vals []Term, pos token.Pos) {
 	}
 	args := append(append([]Term{}, x.rootParams...), vals...)
 	for i, cl := range c.Ensures {
-		if len(cl.Tags) > 0 && len(x.props) > 0 && !anyCommon(cl.Tags, x.props) {
+		if len(cl.Tags) > 0 && x.eng.CurProp != "" && !anyCommon(cl.Tags, []string{x.eng.CurProp}) {
 			continue // clause belongs to another property's check
 		}
 		t := x.evalGhost(fr, x.ghostOf(c, cl.Ghost), args, nil, st, fr.entry)
@@ -206,11 +206,81 @@ func (e *Engine) globalInvariants(pkg *ssa.Package) []*ssa.Function {
 	return res
 }
 
+// globalsReached: package-level variables a function can read, through static callees,
+// closures and the ghost functions of the contracts it uses.
+func (e *Engine) globalsReached(fn *ssa.Function) map[*ssa.Global]bool {
+	if e.globCache == nil {
+		e.globCache = map[*ssa.Function]map[*ssa.Global]bool{}
+	}
+	if m, ok := e.globCache[fn]; ok {
+		return m
+	}
+	res := map[*ssa.Global]bool{}
+	seen := map[*ssa.Function]bool{}
+	var visit func(f *ssa.Function)
+	visit = func(f *ssa.Function) {
+		if f == nil || seen[f] {
+			return
+		}
+		seen[f] = true
+		if f.Pkg != nil {
+			p := f.Pkg.Pkg.Path()
+			if !strings.HasPrefix(p, modPath) && !strings.HasPrefix(p, "github.com/go-openapi/spec") {
+				return
+			}
+		}
+		e.ensureBuilt(f)
+		if c := e.Contracts[f]; c != nil {
+			tp := e.Targets[c.PkgPath]
+			for _, cl := range append(append([]*Clause{}, c.Requires...), c.Ensures...) {
+				if tp != nil {
+					visit(tp.SSA.Func(cl.Ghost))
+				}
+			}
+			for _, ls := range c.Loops {
+				for _, cl := range ls.Invariants {
+					if tp != nil {
+						visit(tp.SSA.Func(cl.Ghost))
+					}
+				}
+			}
+		}
+		for _, b := range f.Blocks {
+			for _, ins := range b.Instrs {
+				for _, op := range ins.Operands(nil) {
+					switch v := (*op).(type) {
+					case *ssa.Global:
+						res[v] = true
+					case *ssa.Function:
+						visit(v)
+					}
+				}
+			}
+		}
+		for _, af := range f.AnonFuncs {
+			visit(af)
+		}
+	}
+	visit(fn)
+	e.globCache[fn] = res
+	return res
+}
+
 func (x *Exec) assumeGlobalInvariants(fr *Frame, st *State) {
 	if fr.fn.Pkg == nil {
 		return
 	}
+	mine := x.eng.globalsReached(fr.fn)
 	for _, gi := range x.eng.globalInvariants(fr.fn.Pkg) {
+		relevant := false
+		for g := range x.eng.globalsReached(gi) {
+			if mine[g] {
+				relevant = true
+			}
+		}
+		if !relevant {
+			continue // the unit cannot read any variable the invariant speaks about
+		}
 		t := x.evalGhost(fr, gi, nil, nil, st, nil)
 		x.vc.assert(t)
 		x.vc.assumed["global invariant "+gi.Name()+" (proved on init)"] = true
